@@ -4,7 +4,7 @@
    export exported up (mp st): the published increment (None = the Go code would panic, Some None = no fact). *)
 From Coq Require Import List Bool Arith.
 From NM Require Import Engine EngineSpec.
-From NP Require Import EngineBasics EngineStep EngineMain ExportProofs.
+From NP Require Import EngineBasics EngineStep EngineMain ExportProofs ExportConvex.
 Import ListNotations.
 
 (* every verdict on a site of an exported symbol is published, or was already published by a dependency *)
@@ -43,3 +43,26 @@ Theorem C06_exported_chosen : forall exported m s,
   In s (map fst m) -> exported s = true -> In s (choose_sites_to_export exported m).
 Proof. exact choose_exported. Qed.
 Print Assumptions C06_exported_chosen.
+
+(* the chosen set is exactly the exported sites plus the convex closure between them: an undetermined site of an
+   unexported symbol is published iff it lies on a path of such sites that starts at a successor of an exported site
+   of the map and ends at a predecessor of one (FR: reachable forward from an exported site through such sites, BR:
+   reaches one backward) -- for every map, no bound on its size *)
+Theorem C06_chosen_is_convex_closure : forall exported m s,
+  ExportConvex.inner exported m s = true ->
+  (In s (choose_sites_to_export exported m) <-> ExportConvex.FR exported m s /\ ExportConvex.BR exported m s).
+Proof. exact ExportConvex.choose_convex. Qed.
+Print Assumptions C06_chosen_is_convex_closure.
+
+(* non-vacuity: exported sites 0 and 9; 0 -> 1 -> 2 -> 9 is a path of unexported undetermined sites, 3 hangs off 1
+   without reaching an exported site, 4 leads into 2 without being reachable from one: 1 and 2 are chosen, 3 and 4
+   are not *)
+Example C06_convex_example :
+  let exported := fun s => Nat.eqb s 0 || Nat.eqb s 9 in
+  let m := [(0, Undet [] [(1, 0)]); (1, Undet [(0, 0)] [(2, 0); (3, 0)]); (2, Undet [(1, 0); (4, 0)] [(9, 0)]);
+            (3, Undet [(1, 0)] []); (4, Undet [] [(2, 0)]); (9, Undet [(2, 0)] [])] in
+  (forall s, In s [1; 2] -> In s (choose_sites_to_export exported m)) /\
+  (forall s, In s [3; 4] -> ~ In s (choose_sites_to_export exported m)).
+Proof.
+  cbn zeta. split; intros s H; vm_compute in H |- *; intuition (subst; try discriminate; auto).
+Qed.
